@@ -457,7 +457,7 @@ def load_known(prop):
 # ---------------------------------------------------------------------------
 # Check driver
 # ---------------------------------------------------------------------------
-def run_check(prop, tier, seed, meta, instances, build, level='model_checking', extra_cov=None, pre_results=None):
+def run_check(prop, tier, seed, meta, instances, build, level='model_checking', extra_cov=None, pre_results=None, partial=False):
     """Runs all instances 16-wide, handles witness twins / replay / known findings, writes evidence,
     prints VIOLATION / KNOWN-FINDING lines and returns the process exit status."""
     t0 = time.time()
@@ -568,10 +568,11 @@ def run_check(prop, tier, seed, meta, instances, build, level='model_checking', 
         'wall_s': round(wall, 1),
         'violations': len(violations),
     }
-    os.makedirs(os.path.join(VERIF, 'evidence'), exist_ok=True)
-    tmp = os.path.join(VERIF, 'evidence', prop + '.json.tmp')
+    evdir = os.path.join(VERIF, 'logs' if partial else 'evidence')     # --only (debugging) runs never touch the evidence file
+    os.makedirs(evdir, exist_ok=True)
+    tmp = os.path.join(evdir, prop + '.json.tmp')
     json.dump(ev, open(tmp, 'w'), indent=1)
-    os.rename(tmp, os.path.join(VERIF, 'evidence', prop + '.json'))
+    os.rename(tmp, os.path.join(evdir, prop + '.json'))
     # ---------------- report ----------------
     for r in sorted(results, key=lambda r: r['name']):
         log('  %-44s %-18s %-7s %6.1fs %5dMB wit=%s %s' % (r['name'], r['status'], r.get('backend') or '', r.get('time_s') or 0,
